@@ -391,6 +391,35 @@ def gen_req_validate():
             '(auto is_volatile sql_default from_db : bool) (inner : option V) : result (option V) :=\n%s.\n' % (rel, lineno, term))
 
 
+SET_PREFIX = ["cache = obj._session_cache_",
+              "if cache is None or not cache.is_alive:\n    throw_db_session_is_over('assign new value to', obj, attr)",
+              "if obj._status_ in del_statuses:\n    throw_object_was_deleted(obj)",
+              "reverse = attr.reverse"]
+SET_VALIDATE = "new_val = attr.validate(new_val, obj, from_db=False)"
+
+
+def gen_attr_set():
+    """Attribute.__set__: what happens between entry and the call of attr.validate.  Only the known guards (session alive,
+    object not deleted, `reverse = attr.reverse`) may precede the call; in particular nothing may return or look at the
+    currently held value first.  The generated definition says: the outcome of an assignment is validate(new value),
+    whatever value the object holds."""
+    rel = 'pony/orm/core.py'
+    fdef, src, lineno = load_function(rel, 'Attribute.__set__')
+    names = [a.arg for a in fdef.args.args]
+    if names != ['attr', 'obj', 'new_val', 'undo_funcs']: raise TranslateError('Attribute.__set__: signature changed: %r' % names)
+    body = [st for st in fdef.body if not (isinstance(st, ast.Expr) and isinstance(st.value, ast.Constant))]
+    texts = [ast.unparse(st) for st in body]
+    if SET_VALIDATE not in texts: raise TranslateError('Attribute.__set__ no longer calls `%s`' % SET_VALIDATE)
+    k = texts.index(SET_VALIDATE)
+    for t in texts[:k]:
+        if t not in SET_PREFIX:
+            raise TranslateError('Attribute.__set__: a statement before the validate call is not understood (validation must come first, '
+                                 'independently of the held value): %s' % t.replace('\n', ' '))
+    return ('(* %s:%d Attribute.__set__: %d guard statements, then `%s`; nothing before it reads the held value or returns *)\n'
+            'Definition attr_set_outcome {V : Type} (validate : V -> result V) (held new_val : V) : result V := validate new_val.\n'
+            % (rel, lineno, k, SET_VALIDATE))
+
+
 def generate():
     out = ['(* GENERATED by tools/py2coq/convvalidate.py from /repo on every run -- do not edit *)',
            'Require Import PonyV.Base.PyBase PonyV.Model.C08Base.', '']
@@ -405,6 +434,7 @@ def generate():
                             '(autostrip : bool) (max_len : option Z)'))
     out.append(gen_attr_none())
     out.append(gen_req_validate())
+    out.append(gen_attr_set())
     return '\n'.join(out)
 
 
